@@ -42,6 +42,23 @@ class ConnProxy(object):
         self._boundary("COMMIT")
         return self._c.commit()
 
+    def executemany(self, sql, *a):
+        k = sql.strip().split()[0].upper()
+        if k in ("INSERT", "DELETE", "UPDATE"):
+            self._boundary(k)
+        return self._c.executemany(sql, *a)
+
+    # "with connection:" = commit on success, roll back on an exception (sqlite3's own protocol), through the same boundaries
+    def __enter__(self):
+        return self
+
+    def __exit__(self, et, ev, tb):
+        if et is None:
+            self.commit()
+        else:
+            self._c.rollback()
+        return False
+
 
 class CursorProxy(object):
     def __init__(self, cur, conn):
@@ -56,6 +73,12 @@ class CursorProxy(object):
         if k in ("INSERT", "DELETE", "UPDATE"):
             self._conn._boundary(k)
         return self._cur.execute(sql, *a)
+
+    def executemany(self, sql, *a):
+        k = sql.strip().split()[0].upper()
+        if k in ("INSERT", "DELETE", "UPDATE"):
+            self._conn._boundary(k)
+        return self._cur.executemany(sql, *a)
 
 
 class Harness(object):
